@@ -643,11 +643,14 @@ theorem call_total_compact (nfc : String → Bool) (E : Stdlib.Env) (args : List
   Stdlib.call_total_compact E args hargs
 
 /-- **The statically typed number and bool functions `signum`, `ceil`, `floor`, `int`, `abs` (`AbsoluteFunc`),
-`neg` (`NegateFunc`), `min`, `max`, `not`, `and`, `or` are total** (number.go, bool.go; the protocol
+`neg` (`NegateFunc`), `min`, `max`, `not`, `and`, `or`, `add`, `subtract`, `multiply`, `divide`, `modulo`
+are total** (number.go, bool.go; the protocol
 instances of `Stdlib/d11bFuncs.lean` over the `Impl` models of C14, compared with the code by the
 `d11b.call` correspondence): for every entry of `D11b.table`, `Call` on well-formed values — any
 number of them, of any type, null, unknown, marked or dynamically typed — returns a value or an
-ordinary error.  (`min()` / `max()` without arguments, `int(±Inf)`: ordinary errors.) -/
+ordinary error.  (`min()` / `max()` without arguments, `int(±Inf)`, and the `big.ErrNaN` cases of the
+arithmetic — `Inf - Inf`, `0 * Inf`, `0 / 0`, `Inf / Inf`, `Inf % 0` — are ordinary errors; `modulo` never asks
+`Int` of an infinite quotient.) -/
 theorem call_total_number_bool_functions (nfc : String → Bool) :
     ∀ e ∈ D11b.table, ∀ (E : Stdlib.Env) (args : List Value), (∀ a ∈ args, a.WF nfc = true) →
       (∀ w, (call e.2.2.2.spec (e.2.2.2.tf E) (e.2.2.2.impl E) args).1 ≠ .panic w) ∧
@@ -657,7 +660,8 @@ theorem call_total_number_bool_functions (nfc : String → Bool) :
 /-- … which functions these are -/
 theorem number_bool_functions_listed :
     D11b.table.map (·.2.1) = ["SignumFunc", "CeilFunc", "FloorFunc", "IntFunc", "AbsoluteFunc", "NegateFunc",
-      "MinFunc", "MaxFunc", "NotFunc", "AndFunc", "OrFunc"] := by decide
+      "MinFunc", "MaxFunc", "NotFunc", "AndFunc", "OrFunc", "AddFunc", "SubtractFunc", "MultiplyFunc", "DivideFunc",
+      "ModuloFunc"] := by decide
 
 /-- … one of them spelled out: `min` -/
 theorem call_total_min (nfc : String → Bool) (args : List Value) (hargs : ∀ a ∈ args, a.WF nfc = true) :
